@@ -113,25 +113,46 @@ def used_surfaces(exprs):
     return sorted(used)
 
 
-def finish_deck(st, cells, imps):
-    """cells: list of (number, expr)."""
+def renumber_expr(t, smap, cmap):
+    if isinstance(t, (int, np.integer)):
+        return smap[abs(int(t))] * (1 if t > 0 else -1)
+    if t[0] == 'f':
+        return ('f', smap[abs(t[1])] * (1 if t[1] > 0 else -1), t[2])
+    if t[0] == '#':
+        return ('#', renumber_expr(t[1], smap, cmap))
+    if t[0] == '^':
+        return ('^', cmap[t[1]])
+    return (t[0], renumber_expr(t[1], smap, cmap), renumber_expr(t[2], smap, cmap))
+
+
+def finish_deck(st, cells, imps, numbering='plain'):
+    """cells: list of (number, expr).  numbering='high': the same deck with surface numbers above 1000 (which
+    must not be mistaken for implicit surfaces 1000*cell+surf) and sparse, unordered cell numbers; the reference
+    keeps the plain numbers, only the rendered text and the expected volume ids change."""
     st.cell_exprs = dict(cells)
     st.imps = dict(zip([c for c, _ in cells], imps))
-    for (n, e), imp in zip(cells, imps):
-        st.cells.append('%d 0 %s imp:n=%d' % (n, render_expr(e), imp))
     st.used = used_surfaces([e for _, e in cells])
-    st.surfs = [SURF_CARDS[s] for s in st.used]
+    smap = {s: s for s in SURF_CARDS}
+    cmap = {c: c for c, _ in cells}
+    if numbering == 'high':
+        smap = {s: 2000 + 7 * s for s in SURF_CARDS}
+        cmap = {c: v for (c, _), v in zip(cells, [731, 40, 5, 99999, 12])}
+    st.cmap = cmap
+    for (n, e), imp in zip(cells, imps):
+        st.cells.append('%d 0 %s imp:n=%d' % (cmap[n], render_expr(renumber_expr(e, smap, cmap)), imp))
+    st.surfs = ['%d %s' % (smap[s], SURF_CARDS[s].split(' ', 1)[1]) for s in st.used]
     return st
 
 
-def b_p2(lits, ks, compl_inner=False, free=True):
+def b_p2(lits, ks, compl_inner=False, free=True, renumber=False):
     def build(ch):
         st = St('c01 p2')
         e = choose_tree(ch, 'e', ks, lits, compl=compl_inner, free=free)
         if ch.choose('rootcompl', [False, True], free=free):
             e = ('#', e)
         imps = ch.choose('imps', IMPS2, free=free)
-        return finish_deck(st, [(1, e), (2, ('^', 1))], imps)
+        numbering = ch.choose('numbering', ['plain', 'high'], free=free) if renumber else 'plain'
+        return finish_deck(st, [(1, e), (2, ('^', 1))], imps, numbering)
     return build
 
 
@@ -142,7 +163,8 @@ def b_p3(lits, ks, free=True):
         e2 = choose_tree(ch, 'e2', ks, lits, free=free)
         imps = ch.choose('imps', IMPS3, free=free)
         cells = [(1, e1), (2, ('*', e2, ('^', 1))), (3, ('*', ('^', 1), ('^', 2)))]
-        return finish_deck(st, cells, imps)
+        numbering = ch.choose('numbering', ['plain', 'high'], free=free)
+        return finish_deck(st, cells, imps, numbering)
     return build
 
 
@@ -247,14 +269,14 @@ def scenarios(tier):
     if tier == 'quick':
         return [
             Scn('p2-k3', b_p2(LITS4, [1, 2, 3]), None, None, 'full product, 4 planes, k<=3'),
-            Scn('p2-mixed-k2', b_p2(LITSX, [1, 2], compl_inner=True), None, None,
+            Scn('p2-mixed-k2', b_p2(LITSX, [1, 2], compl_inner=True, renumber=True), None, None,
                 'full product, oblique plane + rpp whole/facets, k<=2'),
             Scn('p2-k4-dev2', b_p2(LITS4, [4], compl_inner=True, free=False), 2, 3,
                 'k=4 with inner #( ), deviation-bounded'),
             Scn('p3-k2', b_p3(LITS3, [1, 2]), None, None, 'three cells, k<=2 per cell'),
             Scn('p2-curved-k2', b_p2(LITSC, [1, 2], compl_inner=True), None, None,
                 'sphere, cylinder, one-sheet cones (surface collections) and planes, k<=2; witnesses + lattice'),
-            Scn('p2-dup-k3', b_p2(LITSD, [1, 2, 3]), None, None,
+            Scn('p2-dup-k3', b_p2(LITSD, [1, 2, 3], renumber=True), None, None,
                 'one surface under several numbers (slivers that become patently empty after de-duplication)'),
             Scn('nested-compl', b_nestedcompl, 3, 4, '#n and #( ... #n ... ) of the same cells'),
             Scn('forward-ref', b_forward, 3, 4, '#n of cells defined later; numbers not in card order'),
@@ -331,7 +353,7 @@ def check_state(scn, st):
                        msg='a plane-only deck produced a curved surface', out=sha(r.body))
     if (cnt != 1).any():
         raise RuntimeError('generated deck does not partition space (harness defect)')
-    expected = np.array([int(o) if st.imps[o] != 0 else None for o in owner], object)
+    expected = np.array([int(st.cmap[o]) if st.imps[o] != 0 else None for o in owner], object)
     bad = oracle.compare_owner(t4, P, expected)
     stats = {'witness_points': len(P), 'planes': info['planes']}
     nontriv = bool(t4.nonvirtual()) and len(set(owner)) > 1
@@ -351,7 +373,7 @@ def canaries():
     t4 = t4read.parse(r.t4)
     out = []
     P, info, owner, cnt = evaluate(st, t4)
-    exp = np.array([int(o) if st.imps[o] != 0 else None for o in owner], object)
+    exp = np.array([int(st.cmap[o]) if st.imps[o] != 0 else None for o in owner], object)
     out.append(('c01-agree-baseline', not oracle.compare_owner(t4, P, exp)))
     used = [s for s in st.used]
     P, info, owner, cnt = evaluate(st, t4, flip=used[0])
